@@ -130,6 +130,33 @@ theorem C14_own_header (order : List Bytes) (c : Cache) (rest : Bytes)
   have : ((entriesOf 0 order).map (·.atom))[j]'(by simp [entriesOf_length]; exact hj) = order[j] := by simp [e]
   simpa using this
 
+/-- the atoms of the header, as the code points the spec reader hands to `ATOM_CACHE_REF` -/
+theorem C14_atoms_as_code_points (order : List Bytes) (hv : ∀ a ∈ order, validUtf8 a = true) :
+    order.mapM utf8Decode = some (order.map fun a => (utf8Decode a).getD []) := by
+  induction order with
+  | nil => rfl
+  | cons a r ih =>
+    have ha := hv a (by simp)
+    unfold validUtf8 at ha
+    obtain ⟨v, hv'⟩ := Option.isSome_iff_exists.mp ha
+    have := ih (fun b hb => hv b (by simp [hb]))
+    simp [List.mapM_cons, hv', this]
+
+/-- **A whole header-mode message**: whenever the independent reader reads the bytes of the terms — with reference i
+meaning the i-th atom of the header — as the values `vs`, it reads the whole message the library wrote as `vs`.
+(That the term bytes denote the terms' values is the codec's round trip, C01/C03, generic in the atom cache.) -/
+theorem C14_message (inflate : Bytes → Option (Bytes × Nat)) (order : List Bytes) (terms : List Term) (bs : Bytes)
+    (vs : List Value) (hne : order ≠ []) (hv : ∀ a ∈ order, validUtf8 a = true)
+    (h : encodeDist order terms = .ok bs)
+    (hbody : ∀ body, encL order terms = .ok body →
+      readTerms { inflate, refs := order.map fun a => (utf8Decode a).getD [] } (body.length + 1) body = some vs) :
+    ∃ s', readMessage inflate [] bs = some (vs, s') := by
+  obtain ⟨body, rfl, hb, hn, hl⟩ := C14_layout order terms bs hne h
+  refine ⟨sendSlots [] (entriesOf 0 order), ?_⟩
+  simp only [readMessage]
+  rw [C14_header_read_by_spec order [] body hne hn hl]
+  simp only [C14_atoms_as_code_points order hv, hbody body hb, Option.map_some]
+
 /-! ### histories: a conforming sender that creates, re-uses and overwrites cache entries across messages -/
 
 /-- a message as the sender decides it: its LongAtoms flag, its references, the bytes of its terms -/
